@@ -28,8 +28,9 @@ mod verif_kani {
     /// the constant `max_transfer_length` caps with (oti.rs:505-512), transcribed
     fn capacity_const_in_code(id: FECEncodingID) -> u128 {
         match id {
-            FECEncodingID::RaptorQ => 0xFFF_FFFF_FFFFu128, // ELEVEN f = 2^44 - 1 (the comment in the code says "40 bits max")
-            _ => 0xFFFFFFFFFFFFu128,
+            FECEncodingID::RaptorQ => 0xFFF_FFFF_FFFFu128, // ELEVEN f = 2^44 - 1 (the comment in the code says "40 bits max"; never binding: 255 * 65535^2 < 2^40)
+            FECEncodingID::Raptor => 0xFF_FFFF_FFFFu128,   // 2^40 - 1 (2^48 - 1 before the fix of the finding C01.oti.max_transfer_length_within_wire_capacity.raptor)
+            _ => 0xFFFF_FFFF_FFFFu128,
         }
     }
 
